@@ -4,7 +4,8 @@ package rt
 // the symbolic engine in place of the os package (the engine redirects os.OpenFile,
 // os.CreateTemp, os.Rename, (*os.File).Write, ... to the V* functions below). It
 // models successful operations and the natural errors (ENOENT, EEXIST, ENOTEMPTY,
-// use after close). Fault and crash injection is done by the harnesses around the
+// use after close, ENAMETOOLONG for components above 255 bytes, symbolic links in the final
+// component). Fault and crash injection is done by the harnesses around the
 // operation tables of the code under test, so that the same harness replays natively
 // against the real file system.
 //
@@ -143,6 +144,23 @@ func vbase(p string) string {
 }
 
 var errLoop = errors.New("too many levels of symbolic links")
+var errNameTooLong = errors.New("file name too long")
+
+// vtoolong: NAME_MAX = 255 bytes per path component (ext4, tmpfs, xfs, btrfs, overlayfs).
+func vtoolong(p string) bool {
+	n := 0
+	for i := 0; i < len(p); i++ {
+		if p[i] == '/' {
+			n = 0
+			continue
+		}
+		n++
+		if n > 255 {
+			return true
+		}
+	}
+	return false
+}
 
 // vfollow resolves symbolic links in the FINAL component of the absolute path p (as open/stat do).
 func vfollow(p string) (string, error) {
@@ -166,6 +184,9 @@ func perr(op, path string, err error) error { return &fs.PathError{Op: op, Path:
 func VOpenFile(name string, flag int, perm os.FileMode) (*os.File, error) {
 	s := vs()
 	p := vabs(name)
+	if vtoolong(p) {
+		return nil, perr("open", name, errNameTooLong)
+	}
 	n, exists := s.names[p]
 	if exists && flag&os.O_CREATE != 0 && flag&os.O_EXCL != 0 {
 		return nil, perr("open", name, fs.ErrExist) // also for a (dangling) symbolic link: O_EXCL does not follow
@@ -269,6 +290,9 @@ func VMkdirTemp(dir, pattern string) (string, error) {
 func VMkdir(name string, perm os.FileMode) error {
 	s := vs()
 	p := vabs(name)
+	if vtoolong(p) {
+		return perr("mkdir", name, errNameTooLong)
+	}
 	if _, exists := s.names[p]; exists {
 		return perr("mkdir", name, fs.ErrExist)
 	}
@@ -310,6 +334,9 @@ func (fi VFileInfo) IsDir() bool        { return fi.Node.Dir }
 func (fi VFileInfo) Sys() any           { return nil }
 
 func VStat(name string) (os.FileInfo, error) {
+	if vtoolong(vabs(name)) {
+		return nil, perr("stat", name, errNameTooLong)
+	}
 	p, err := vfollow(vabs(name))
 	if err != nil {
 		return nil, perr("stat", name, err)
@@ -323,6 +350,9 @@ func VStat(name string) (os.FileInfo, error) {
 
 // VLstat does not follow a symbolic link in the final component.
 func VLstat(name string) (os.FileInfo, error) {
+	if vtoolong(vabs(name)) {
+		return nil, perr("lstat", name, errNameTooLong)
+	}
 	n, ok := vs().names[vabs(name)]
 	if !ok {
 		return nil, perr("lstat", name, fs.ErrNotExist)
@@ -364,6 +394,9 @@ func VSameFile(a, b os.FileInfo) bool {
 func VRemove(name string) error {
 	s := vs()
 	p := vabs(name)
+	if vtoolong(p) {
+		return perr("remove", name, errNameTooLong)
+	}
 	n, ok := s.names[p]
 	if !ok {
 		return perr("remove", name, fs.ErrNotExist)
@@ -393,6 +426,9 @@ func VRemoveAll(name string) error {
 func VRename(oldName, newName string) error {
 	s := vs()
 	po, pn := vabs(oldName), vabs(newName)
+	if vtoolong(po) || vtoolong(pn) {
+		return &os.LinkError{Op: "rename", Old: oldName, New: newName, Err: errNameTooLong}
+	}
 	n, ok := s.names[po]
 	if !ok {
 		return &os.LinkError{Op: "rename", Old: oldName, New: newName, Err: fs.ErrNotExist}
@@ -732,4 +768,48 @@ func VFileReaddir(f *os.File, n int) ([]os.FileInfo, error) {
 		out = append(out, fi)
 	}
 	return out, nil
+}
+
+// VFileReadFrom / VFileWriteTo: the generic copy loops behind (*os.File).ReadFrom / WriteTo (the real ones
+// try copy_file_range / splice first, which is invisible at this level).
+func VFileReadFrom(f *os.File, r io.Reader) (int64, error) {
+	var total int64
+	buf := make([]byte, 64)
+	for {
+		n, err := r.Read(buf)
+		if n > 0 {
+			w, werr := VFileWrite(f, buf[:n])
+			total += int64(w)
+			if werr != nil {
+				return total, werr
+			}
+		}
+		if err == io.EOF {
+			return total, nil
+		}
+		if err != nil {
+			return total, err
+		}
+	}
+}
+
+func VFileWriteTo(f *os.File, w io.Writer) (int64, error) {
+	var total int64
+	buf := make([]byte, 64)
+	for {
+		n, err := VFileRead(f, buf)
+		if n > 0 {
+			m, werr := w.Write(buf[:n])
+			total += int64(m)
+			if werr != nil {
+				return total, werr
+			}
+		}
+		if err == io.EOF {
+			return total, nil
+		}
+		if err != nil {
+			return total, err
+		}
+	}
 }
